@@ -44,7 +44,13 @@ OPT_SECTION6 = ("# Options:\n"
                 "#   -q           q\n"
                 "#   -d           d\n"
                 "#   -x, --extra  x\n")
-TABLES = {"T6": (OPTS6, OPT_SECTION6), True: (OPTS, OPT_SECTION), "T2": (OPTS2, OPT_SECTION2), "T3": (OPTS3, OPT_SECTION3), "T4": (OPTS4, OPT_SECTION4), "T5": (OPTS5, OPT_SECTION5)}
+# placeholders that contain dots (an IP address, a file name with extension)
+OPTS7 = [(None, "ip", True, None), ("o", "out", True, None), ("q", None, False, None)]
+OPT_SECTION7 = ("# Options:\n"
+                "#   --ip=<a.b.c.d>              Address.\n"
+                "#   -o FILE.EXT, --out=FILE.EXT  Output.\n"
+                "#   -q                          Quiet.\n")
+TABLES = {"T7": (OPTS7, OPT_SECTION7), "T6": (OPTS6, OPT_SECTION6), True: (OPTS, OPT_SECTION), "T2": (OPTS2, OPT_SECTION2), "T3": (OPTS3, OPT_SECTION3), "T4": (OPTS4, OPT_SECTION4), "T5": (OPTS5, OPT_SECTION5)}
 
 
 def opts_of(wo):
@@ -319,6 +325,12 @@ def family_usages():
     av15b = [list(t) for n in range(0, 3) for t in itertools.product(['--out=-1', '--out', '-1', '-o-1', '-o', '--level=-x', 'v', '--out=--', '-'], repeat=n)]
     for l in ([('seq', [opt(oo), opt(x)])], [('seq', [('anyopts',), opt(x)])]):
         out.append((l, True, av15b))
+    # F16: valued options whose placeholder contains dots
+    t16 = ['--ip=1.2.3.4', '--ip', '1.2.3.4', '-o', 'x', '-ox', '-o=x', '--out=x', '-q', 'v']
+    av16 = [list(t) for n in range(0, 4) for t in itertools.product(t16, repeat=n) if len(set(t)) == len(t)]
+    ipo, outo = o('ip', '--ip=<a.b.c.d>'), o('out', '-o FILE.EXT')
+    for l in ([('seq', [opt(ipo), opt(x)])], [('seq', [('anyopts',), opt(x)])], [('seq', [opt(outo), opt(qf), x])], [('seq', [a, opt(ipo), opt(outo)])]):
+        out.append((l, "T7", av16))
     # F5: upper-case positionals, `<x> ...` with a blank before the dots
     F, G = ('pos', 'FILE'), ('pos', 'MY-ARG')
     av5 = [list(t) for n in range(0, 5) for t in itertools.product(['a', 'v', 'w'], repeat=n)]
